@@ -56,21 +56,26 @@ func LoadProgram(repoDir string, patterns []string, overlay map[string][]byte, t
 
 // RunConfig describes one symbolic run of a harness entry point.
 type RunConfig struct {
-	Name       string
-	PkgPath    string // import path of the package holding the harness
-	Entry      string // harness function name
-	BV         bool
-	Params     map[string]int64
-	Unwind     int
-	Sched      bool
-	Races      bool
-	FeasAll    bool
-	Solver     string   // main solver kind
-	Cross      []string // additional solvers for cross-checking
-	QueryMs    int
-	SplitMs    int // first-attempt timeout before a hard query is split into cubes
-	FeasMs     int // timeout of in-execution feasibility queries (ms)
-	SmallInts  int // >0: Int terms are sent to the solver as bit-vectors of this width (all must be bounded)
+	Name    string
+	PkgPath string // import path of the package holding the harness
+	Entry   string // harness function name
+	BV      bool
+	Params  map[string]int64
+	Unwind  int
+	Sched   bool
+	Races   bool
+	FeasAll bool
+	Solver  string   // main solver kind
+	Cross   []string // additional solvers for cross-checking
+	QueryMs int
+	SplitMs int // first-attempt timeout before a hard query is split into cubes
+	FeasMs  int // timeout of in-execution feasibility queries (ms)
+	// BudgetSec > 0: the run is abandoned (not inconclusive) when symbolic execution plus solving
+	// exceed this wall-clock budget; its bound then counts as not covered
+	BudgetSec  int
+	Optional   bool
+	SplitData  bool // goroutine mode: do not merge worlds whose small control data differ
+	SmallInts  int  // >0: Int terms are sent to the solver as bit-vectors of this width (all must be bounded)
 	Workers    int
 	ModulePath string
 	InitPkgs   []string // module packages whose init must run (dependency order)
@@ -126,12 +131,29 @@ type RunResult struct {
 	SolveSecs   float64
 	Observes    []Observation
 	ex          *Exec
+	Aborted     bool // time budget exceeded: nothing is claimed for this run
 	Covers      int
 	Notes       []string
 }
 
-// Run executes a harness symbolically and discharges its obligations.
+// Run executes a harness symbolically and discharges its obligations. A run in small-int mode
+// whose integers turn out not to fit is repeated with mathematical integers.
 func Run(l *Loaded, cfg RunConfig) (res *RunResult) {
+	res = runOnce(l, cfg)
+	if cfg.SmallInts > 0 {
+		for _, m := range res.Inconcl {
+			if strings.Contains(m, "small-int lowering unsafe") {
+				cfg.SmallInts = 0
+				r2 := runOnce(l, cfg)
+				r2.Notes = append(r2.Notes, "small-int lowering was not applicable (unbounded integer); repeated with mathematical integers")
+				return r2
+			}
+		}
+	}
+	return res
+}
+
+func runOnce(l *Loaded, cfg RunConfig) (res *RunResult) {
 	res = &RunResult{Cfg: cfg, KnownHits: map[string]string{}}
 	t0 := time.Now()
 	tb := NewTB()
@@ -164,6 +186,9 @@ func Run(l *Loaded, cfg RunConfig) (res *RunResult) {
 	ex.Fixed = cfg.Fixed
 	ex.Trace = cfg.Trace
 	ex.FeasAll = cfg.FeasAll
+	if cfg.BudgetSec > 0 {
+		ex.Deadline = t0.Add(time.Duration(cfg.BudgetSec) * time.Second)
+	}
 	ex.KnownIDs = cfg.KnownIDs
 	ex.AssertPrefix = cfg.AssertPrefix
 	if cfg.Unwind > 0 {
@@ -178,6 +203,7 @@ func Run(l *Loaded, cfg RunConfig) (res *RunResult) {
 			ex.FeasTimeout = cfg.FeasMs
 		}
 		ex.EnableSched(cfg.Races)
+		ex.SplitData = cfg.SplitData
 		if cfg.SlotIDs != nil {
 			ex.sched.SlotIDs = map[string]int{}
 			for k, v := range cfg.SlotIDs {
@@ -229,6 +255,12 @@ func Run(l *Loaded, cfg RunConfig) (res *RunResult) {
 		}
 	}()
 	res.ExecSecs = time.Since(t0).Seconds()
+	if ex.Aborted {
+		res.Aborted = true
+		res.Notes = append(res.Notes, fmt.Sprintf("time budget of %ds exceeded during symbolic execution: this run's bound is not covered", cfg.BudgetSec))
+		res.NInstr, res.NStates = ex.NInstr, ex.NStates
+		return res
+	}
 	res.Inconcl = append(res.Inconcl, ex.Inconcl...)
 	res.Obligations = ex.Obligations
 	res.Funcs = ex.sortedFuncs()
@@ -246,6 +278,11 @@ func Run(l *Loaded, cfg RunConfig) (res *RunResult) {
 	t1 := time.Now()
 	ex.discharge(res, cfg)
 	res.SolveSecs = time.Since(t1).Seconds()
+	if cfg.BudgetSec > 0 && time.Since(t0) >= time.Duration(cfg.BudgetSec)*time.Second*2 && len(res.Violations) == 0 {
+		res.Aborted = true
+		res.Inconcl = nil
+		res.Notes = append(res.Notes, fmt.Sprintf("time budget of %ds exceeded while solving: this run's bound is not covered", cfg.BudgetSec))
+	}
 	res.NTerms = tb.NumTerms()
 	return res
 }
@@ -493,6 +530,15 @@ func (ex *Exec) discharge(res *RunResult, cfg RunConfig) {
 					continue
 				}
 				o := j.p.ob
+				if cfg.BudgetSec > 0 && time.Since(ex.start) > 2*time.Duration(cfg.BudgetSec)*time.Second {
+					// over budget: the run will be abandoned, do not solve the rest
+					finishOne(j, Unknown, nil)
+					mu.Lock()
+					outstanding--
+					mu.Unlock()
+					cond.Broadcast()
+					continue
+				}
 				terms := append(append(append([]*Term(nil), ex.assumes[:o.NAssume]...), j.extra...), j.cube...)
 				ms := cfg.QueryMs
 				canSplit := j.depth < len(splitVars)
